@@ -16,7 +16,7 @@ import (
 
 // one call to record: the text is either a symbol sequence or run-length encoded (giant lines)
 type vaInput struct {
-	T       []string        `json:"t,omitempty"`
+	T       []string        `json:"t"`
 	Rle     [][]interface{} `json:"rle,omitempty"` // [[symbol, count], ...]
 	N       int             `json:"n"`             // length of the text in runes (filled in here)
 	P       []string        `json:"p"`
@@ -91,6 +91,9 @@ func TestVerifAlgoRecord(t *testing.T) {
 		in := &vaInput{}
 		if err := json.Unmarshal(line, in); err != nil {
 			return err
+		}
+		if in.T == nil {
+			in.T = []string{}
 		}
 		inputs = append(inputs, in)
 		return nil
